@@ -16,7 +16,7 @@ import re
 
 import vlib
 
-PROPS = ['Rangers.Props.C11', 'Rangers.Props.C11B', 'Rangers.Props.C11C', 'Rangers.Props.C11D', 'Rangers.Props.C11E']
+PROPS = ['Rangers.Props.C11', 'Rangers.Props.C11B', 'Rangers.Props.C11C', 'Rangers.Props.C11D', 'Rangers.Props.C11E', 'Rangers.Props.C11F', 'Rangers.Props.C11G']
 DRIVERS = ['C11']
 META = dict(
     level='proof',
@@ -28,8 +28,8 @@ META = dict(
                'gas never increases within a frame and a callee never returns more than it was given, stack <= 1024, '
                'depth <= 1025 interpreter frames (EVM depth 0..1024), memory growth paid by the exact quadratic fee, '
                'faults are ordinary failed calls',
-    level_note='precompile cryptography, Keccak, a successful ecrecover inside AUTH (hence a live AUTHCALL) and the Go '
-               'runtime (stack exhaustion, allocation) are outside the model; they are exercised by fuzzing for panics only',
+    level_note='precompile cryptography and the Go runtime (stack exhaustion, allocation) are outside the model; Keccak-256 '
+               'and secp256k1 recovery (AUTH) are executable parts of the model that no theorem is about (sampled by the tie)',
     trusted_base=['Lean 4 kernel (axioms propext, Classical.choice, Quot.sound)',
                   'gen/cmd/c11facts and src/vm/verif_c11_dump.go (jump-table dump hook, build tag verif)',
                   'harness/cmd/c11 (recording StateDB proxy, generators)',
@@ -38,7 +38,8 @@ META = dict(
     assumptions=['GetCodeHash(a) determines GetCode(a) (the JUMPDEST analysis cache is keyed by code hash)',
                  'no miner account is registered for the executing contract (STAKE/UNSTAKE/GETSTAKE/UNSTAKEALL/STAKENUM '
                  'take their "no such miner" branch)',
-                 'the three fix: commits of branch hooks/c11 are applied (BLOBHASH, AUTH memory read, magnification overflow)'],
+                 'the three fix: commits of branch hooks/c11 are applied (BLOBHASH, AUTH memory read, magnification overflow)',
+                 'hooks H6-c11 (jump-table dump / gas probes) and H7-c11 (per-iteration observer) are present in the tree under test'],
     rule='distinct op lines (program + recorded oracle tape, dynamic-gas probe, precompile price) answered by both '
          'the implementation and the Lean model',
     explanation='bin/check C11 regenerates Generated/Evm11Tables.lean from the working tree, re-proves Props/C11*.lean, '
